@@ -84,6 +84,9 @@ func (e *specEnv) eval(x ast.Expr) (sym.Expr, error) {
 		if e.locals != nil && (v.Name == "true" || v.Name == "false") {
 			return sym.V("#" + v.Name), nil
 		}
+		if e.locals != nil && len(v.Name) == 2 && v.Name[0] == 'k' && v.Name[1] >= '1' && v.Name[1] <= '9' {
+			return sym.V("$" + v.Name), nil // bound index of a sum
+		}
 		if strings.HasPrefix(v.Name, "calculatePeriods_") {
 			return sym.V("cfg:calculatePeriods()#" + v.Name[len("calculatePeriods_"):]), nil
 		}
@@ -158,8 +161,32 @@ func (e *specEnv) eval(x ast.Expr) (sym.Expr, error) {
 		}
 		return e.indCall(call, k)
 	case *ast.CallExpr:
+		if sel, ok := v.Fun.(*ast.SelectorExpr); ok && e.locals != nil {
+			// a method of the step's only object of a type: Ring.At(k1), Ring.IsFull(), Ring.Put(x)
+			if rid, ok := sel.X.(*ast.Ident); ok && (rid.Name == "Ring" || rid.Name == "Bst") {
+				var args []sym.Expr
+				for _, a := range v.Args {
+					t, err := e.eval(a)
+					if err != nil {
+						return nil, err
+					}
+					args = append(args, t)
+				}
+				return sym.Call{Fn: rid.Name + "." + sel.Sel.Name, Args: args}, nil
+			}
+		}
 		if id, ok := v.Fun.(*ast.Ident); ok {
 			var args []sym.Expr
+			if id.Name == "sum" && len(v.Args) == 3 && e.locals != nil {
+				for _, a := range v.Args {
+					t, err := e.eval(a)
+					if err != nil {
+						return nil, err
+					}
+					args = append(args, t)
+				}
+				return sym.Call{Fn: "sum", Args: args}, nil
+			}
 			if id.Name == "op" && len(v.Args) >= 1 {
 				// op("operator name", args...): a stateful closure or hand-written stage of the root, by name
 				bl, ok := v.Args[0].(*ast.BasicLit)
